@@ -52,6 +52,19 @@ Round 4 additions:
   * option repair: repair=False (the default of the monitor) -> every returned triangle is a
     triangle of the source (sym faces_not_in_source); repair=True -> new faces may be appended
     after the survivors, which are judged as always
+
+Round 5 additions:
+  * state "derived values read before the operation" (params reads="derived", every in-place
+    operation in one of the two passes over a mesh): the caller has looked at triangles, edges,
+    face_adjacency, vertex_faces, bounds ... so they sit in the cache.  After EVERY in-place
+    operation what the mesh reports (mesh.triangles, mesh.edges; with reads also edges_sorted /
+    edges_unique / face_adjacency / vertex_faces / referenced_vertices / bounds / faces_sparse /
+    area_faces) is compared with plain numpy on the vertex and face arrays it holds now
+    (sym reported_<attribute>_wrong, reads=before in the key)
+  * concatenation of three to five textured inputs whose materials RECUR non-contiguously
+    (A B A, A B A B, A B C A: equal materials are packed once, the UV rows still belong to the
+    inputs in input order; materials=recurring in the key) and the routes Scene.to_mesh() /
+    Scene.dump(concatenate=True) next to util.concatenate / a + b (all visual kinds)
 """
 
 from __future__ import annotations
@@ -68,7 +81,8 @@ RULE = (
     "(1e-9) / outside-tolerance (1e-6) duplicate vertices, unreferenced vertices, repeated and "
     "degenerate faces, NaN/inf coordinates; x visual kind (none/face/vertex/texture/texture with one material index per face) x normals "
     "(cold/computed/assigned); the meshes also placed at scale 1e6..1e15, 1e298, 1e302 / offset 1e12..1e15; submesh / split with hole repair off and on; split / submesh / "
-    "concatenate also repeated after the caller edited the earlier result in place. distinct = distinct (operation, options, mask, visual, normals, "
+    "concatenate also repeated after the caller edited the earlier result in place; in-place operations with and without the derived values "
+    "(triangles, edges, adjacency ...) read before; concatenation by util.concatenate / a + b / Scene.to_mesh / Scene.dump with one, distinct and recurring (A B A) texture materials. distinct = distinct (operation, options, mask, visual, normals, "
     "mesh bytes); non-trivial = the operation changed the face or vertex arrays (or produced "
     "new meshes) so that a mis-indexing was possible."
 )
@@ -701,6 +715,123 @@ def check_vertex_normals(cx, m, src_vertex, opt="", rewind_ok=False, must_carry=
                 {"vertex": w, "reported": vn[w], "old_of_same_vertex": old[src_vertex[w]], "recomputed": fresh[w]}, opt)
 
 
+# derived values a caller may have looked at BEFORE the operation (state carried in the cache);
+# none of them computes normals, so a mesh with normals="cold" stays cold
+DERIVED = ("triangles", "edges", "edges_sorted", "edges_unique", "face_adjacency", "face_adjacency_edges",
+           "vertex_faces", "faces_sparse", "referenced_vertices", "area_faces", "bounds", "triangles_center",
+           "edges_face", "faces_unique_edges")
+
+
+def read_derived(m, names=DERIVED):
+    """The caller's reads; one that fails on a hostile mesh is the caller's problem."""
+    n = 0
+    for name in names:
+        try:
+            getattr(m, name)
+            n += 1
+        except BaseException as e:  # noqa
+            if isinstance(e, KeyboardInterrupt):
+                raise
+    return n
+
+
+def check_derived(cx, m, opt=""):
+    """
+    What the mesh REPORTS about its triangles after the operation - triangles, edges, adjacency,
+    vertex -> face tables, bounds - must describe the vertex and face arrays it holds now (plain
+    numpy on m.vertices / m.faces is the reference).  With reads="derived" the same values were
+    read before the operation, so a value the operation did not forget is served again.
+    """
+    V = np.asarray(m.vertices, dtype=np.float64)
+    F = np.asarray(m.faces, dtype=np.int64).reshape(-1, 3)
+    nv, nf = len(V), len(F)
+    if nf == 0 or nv == 0 or F.min() < 0 or F.max() >= nv:
+        return
+    if cx.params.get("reads"):
+        opt = (opt + " " if opt else "") + "reads=before"
+
+    def get(name):
+        try:
+            return True, getattr(m, name)
+        except BaseException as e:  # noqa
+            if isinstance(e, KeyboardInterrupt):
+                raise
+            cx.fail("exception:%s:%s" % (name, type(e).__name__), "reading mesh.%s after the operation raised" % name,
+                    {"error": repr(e)[:200]}, opt)
+            return False, None
+
+    def bad(name, what, detail=None):
+        d = {"attribute": name, "len_vertices": nv, "len_faces": nf}
+        d.update(detail or {})
+        cx.fail("reported_%s_wrong" % name, "mesh.%s after the operation %s" % (name, what), d, opt)
+
+    ok, tri = get("triangles")
+    if ok:
+        tri = np.asarray(tri)
+        if tri.shape != (nf, 3, 3):
+            bad("triangles", "does not have one row per face", {"shape": list(tri.shape)})
+        elif not _same(tri, V[F]).all():
+            k = int(np.nonzero(~_same(tri, V[F]).all(axis=(1, 2)))[0][0])
+            bad("triangles", "is not vertices[faces]: a triangle is reported somewhere else than its face is",
+                {"face": k, "reported": tri[k], "vertices_of_face": V[F[k]]})
+    E = F[:, [0, 1, 1, 2, 2, 0]].reshape(-1, 2)
+    ok, e = get("edges")
+    if ok and (np.shape(e) != E.shape or not np.array_equal(np.asarray(e), E)):
+        bad("edges", "are not the edges of its faces", {"shape": list(np.shape(e))})
+    if not cx.params.get("reads"):
+        # nothing was cached before the operation: the rest is computed from scratch now, which
+        # is other properties' business
+        cx.run.count("derived_values_compared")
+        return
+    ok, e = get("edges_sorted")
+    if ok and (np.shape(e) != E.shape or not np.array_equal(np.asarray(e), np.sort(E, axis=1))):
+        bad("edges_sorted", "are not the sorted edges of its faces", {"shape": list(np.shape(e))})
+    ok, e = get("edges_unique")
+    if ok:
+        e = np.asarray(e).reshape(-1, 2)
+        want = np.unique(np.sort(E, axis=1), axis=0)
+        if len(e) != len(want) or not np.array_equal(np.unique(np.sort(e, axis=1), axis=0), want):
+            bad("edges_unique", "are not the unique edges of its faces", {"n": int(len(e)), "expected": int(len(want))})
+    ok, adj = get("face_adjacency")
+    if ok:
+        adj = np.asarray(adj, dtype=np.int64).reshape(-1, 2)
+        if len(adj) and (adj.min() < 0 or adj.max() >= nf):
+            bad("face_adjacency", "names faces that do not exist", {"max": int(adj.max())})
+        elif len(adj):
+            Es = np.sort(F[:, [0, 1, 1, 2, 2, 0]].reshape(-1, 3, 2), axis=2)
+            share = (Es[adj[:, 0]][:, :, None, :] == Es[adj[:, 1]][:, None, :, :]).all(axis=3).any(axis=(1, 2))
+            if not share.all():
+                k = int(np.nonzero(~share)[0][0])
+                bad("face_adjacency", "pairs faces that share no edge", {"pair": adj[k], "faces": F[adj[k]]})
+    ok, vf = get("vertex_faces")
+    if ok:
+        vf = np.asarray(vf, dtype=np.int64)
+        if vf.ndim != 2 or len(vf) != nv or (vf.size and vf.max() >= nf):
+            bad("vertex_faces", "is not a table of existing faces per vertex", {"shape": list(vf.shape)})
+        elif vf.size:
+            r, c = np.nonzero(vf >= 0)
+            if not (F[vf[r, c]] == r[:, None]).any(axis=1).all():
+                bad("vertex_faces", "lists a face for a vertex that is not a corner of it")
+    ok, ref = get("referenced_vertices")
+    if ok:
+        mine = np.zeros(nv, dtype=bool)
+        mine[F.reshape(-1)] = True
+        if np.shape(ref) != (nv,) or not np.array_equal(np.asarray(ref, dtype=bool), mine):
+            bad("referenced_vertices", "does not mark the vertices its faces use", {"shape": list(np.shape(ref))})
+        elif np.isfinite(V[mine]).all():
+            ok, b = get("bounds")
+            if ok and (b is None or np.shape(b) != (2, 3)
+                       or not np.array_equal(np.asarray(b), np.array([V[mine].min(axis=0), V[mine].max(axis=0)]))):
+                bad("bounds", "are not the bounds of the vertices its faces use", {"reported": b})
+    ok, sp = get("faces_sparse")
+    if ok and tuple(getattr(sp, "shape", ())) != (nv, nf):
+        bad("faces_sparse", "is not (vertices x faces)", {"shape": list(getattr(sp, "shape", ()))})
+    ok, ar = get("area_faces")
+    if ok and np.shape(ar) != (nf,):
+        bad("area_faces", "does not have one entry per face", {"shape": list(np.shape(ar))})
+    cx.run.count("derived_values_compared_after_reading_them_before")
+
+
 def check_inplace(cx, m, exp_src_face=None, exp_src_vertex=None, merging=None, rewind_ok=False,
                   opt="", dropped_vertices=None, lenient_nonfinite=False, allow_face_subset=False,
                   carry_normals=False):
@@ -746,6 +877,8 @@ def check_inplace(cx, m, exp_src_face=None, exp_src_vertex=None, merging=None, r
     perm = check_faces(cx, Vn, Fn, fid, tol, rewind_ok, lenient_nonfinite, opt, dropped_vertices)
     if perm is None:
         return
+    # ---- what the mesh reports about its triangles (triangles, edges, adjacency ...)
+    check_derived(cx, m, opt)
     # ---- vertex rows
     if len(vid) and (vid.min() < 0 or vid.max() >= T.nv):
         cx.fail("vertex_id_invalid", "vertex ids after the operation are not ids of original vertices", {"ids": vid[:20]}, opt)
@@ -1099,6 +1232,9 @@ def _prepare(cx):
             cx.vn_before = np.array(m.vertex_normals)
         except BaseException:
             cx.vn_before = None
+    if cx.params.get("reads") == "derived":
+        # the caller looked at the mesh before the operation: derived values are in the cache
+        cx.run.count("derived_values_read_before", read_derived(m))
     return m
 
 
@@ -1681,6 +1817,27 @@ def op_split(cx):
 FACELESS_OK = ("none", "vertex")
 
 
+def _material_class(mats):
+    """recurring: some material comes back after another one (A B A); grouped: equal ones are neighbours"""
+    seen, prev = set(), None
+    for x in mats:
+        if x != prev and x in seen:
+            return "recurring"
+        seen.add(x)
+        prev = x
+    return "grouped" if len(seen) < len(mats) else "distinct"
+
+
+def material_pattern(rng, n):
+    """n >= 3 material numbers (0..3) in which at least one material recurs after another one."""
+    while True:
+        k = int(rng.integers(2, min(4, n - 1) + 1))
+        mats = [int(x) for x in rng.integers(0, k, size=n)]
+        if _material_class(mats) == "recurring":
+            off = int(rng.integers(4))
+            return [(x + off) % 4 for x in mats]
+
+
 def op_concatenate(cx):
     """params: others = list of mesh cases; route = 'concatenate' | 'add'."""
     import trimesh
@@ -1688,12 +1845,22 @@ def op_concatenate(cx):
     p = cx.params
     tagged = [cx.T] + [Tagged.from_case(c) for c in p["others"]]
     kinds = p.get("normal_modes") or [cx.normals] * len(tagged)
-    meshes = [t.build(cx.visual_full, k, image_variant=i % 3 if p.get("mixed_images") else 0) for i, (t, k) in enumerate(zip(tagged, kinds))]
+    # materials: which texture image every input uses (recurring ones, e.g. A B A, are equal
+    # materials that are NOT next to each other in the input); default one image for all /
+    # all different (mixed_images)
+    mats = p.get("materials") or [i % 3 if p.get("mixed_images") else 0 for i in range(len(tagged))]
+    meshes = [t.build(cx.visual_full, k, image_variant=mats[i]) for i, (t, k) in enumerate(zip(tagged, kinds))]
     route = p.get("route", "concatenate")
     opt = "route=%s" % route
+    if p.get("materials"):
+        opt += " materials=" + _material_class(mats)
     if route == "add":
         fn = lambda: meshes[0] + meshes[1]  # noqa
         tagged, meshes, kinds = tagged[:2], meshes[:2], kinds[:2]
+    elif route == "scene_to_mesh":
+        fn = lambda: trimesh.Scene(meshes).to_mesh()  # noqa
+    elif route == "scene_dump":
+        fn = lambda: trimesh.Scene(meshes).dump(concatenate=True)  # noqa
     else:
         fn = lambda: trimesh.util.concatenate(meshes)  # noqa
     if cx.visual == "texture":
@@ -1860,6 +2027,10 @@ OPS = {
 }
 
 
+INPLACE_OPS = ("merge_vertices", "unmerge_vertices", "remove_unreferenced_vertices", "remove_infinite_values",
+               "update_faces", "update_vertices", "unique_faces", "nondegenerate_faces", "process")
+
+
 def execute(run, T, visual, normals, op, params):
     cx = Ctx(run, T, visual, normals, op, params)
     OPS[op](cx)
@@ -2006,10 +2177,14 @@ def workload(run):
         pick = [combos[(2 * i) % len(combos)], combos[(2 * i + 1 + i // len(combos)) % len(combos)]]
         oplist = list(ops_for(run, rng, T, full))
         others = [t.to_case() for t in prev[-2:]]
-        for visual, normals in pick:
-            for op, params in oplist:
+        for j, (visual, normals) in enumerate(pick):
+            for k, (op, params) in enumerate(oplist):
                 if op == "subdivide" and (normals != "cold" or "face_materials" in visual):
                     continue
+                if op in INPLACE_OPS and (j + k) % 2 == 0:
+                    # in one of the two passes the caller has LOOKED at the mesh before the
+                    # operation (triangles, edges, adjacency ... are cached)
+                    params = dict(params, reads="derived")
                 if op == "submesh" and params.get("append") and visual == "texture:face_materials":
                     # MultiMaterial WITH uv rows is built by no loader and stacking it goes
                     # through material.pack (single materials): not judged
@@ -2030,6 +2205,19 @@ def workload(run):
                     execute(run, T, visual, normals, "concatenate",
                             {"others": others, "route": "concatenate", "mixed_images": False,
                              "normal_modes": [normals] + ["cold"] * len(others)})
+                # other ways to the same stacking: a Scene flattened into one mesh
+                faces_everywhere = T.nf > 0 and all(t.nf > 0 for t in prev[-4:])
+                if faces_everywhere:
+                    execute(run, T, visual, normals, "concatenate",
+                            {"others": others, "route": ("scene_to_mesh", "scene_dump")[i % 2], "mixed_images": bool(i % 4 < 2)})
+                if visual == "texture" and len(prev) >= 2:
+                    # three to five textured inputs whose materials RECUR (A B A, A B A B, A B C A ...):
+                    # equal materials are packed once, the UV rows still belong to the inputs in input order
+                    routes = ["concatenate"] + (["scene_to_mesh", "scene_dump"] if faces_everywhere else [])
+                    for route in routes:
+                        oth = [t.to_case() for t in prev[-int(rng.integers(2, min(4, len(prev)) + 1)):]]
+                        execute(run, T, visual, normals, "concatenate",
+                                {"others": oth, "route": route, "materials": material_pattern(rng, len(oth) + 1)})
                 if visual in FACELESS_OK and normals == "cold":
                     # an entry that has vertices but NO faces (a bare point set, a mesh whose faces
                     # were all masked away) in front of / between entries with faces: its vertices
